@@ -48,7 +48,7 @@ def pn(name):
     if not name.isidentifier() or not name.isascii() or name.startswith("_"):
         raise TranslateError("identifier %r" % name)
     if name in RESERVED or name in FUNCS or name in ("E", "sigma", "tau", "solved", "bind", "is_variable", "is_none",
-                                                     "py_max", "sv_get", "sv_set", "ctx_get", "ctx_set", "with_args"):
+                                                     "py_max", "py_min", "sv_get", "sv_set", "ctx_get", "ctx_set", "with_args"):
         return name + "_"
     return name
 
@@ -163,12 +163,12 @@ class FunTr:
                 if k != "V":
                     fail(e, "is_variable of a non-value")
                 return "(is_variable %s)" % a, "B"
-            if isinstance(f, ast.Name) and f.id == "max" and len(e.args) == 2:
+            if isinstance(f, ast.Name) and f.id in ("max", "min") and len(e.args) == 2:
                 a, ka = self.expr(e.args[0], env)
                 b, kb = self.expr(e.args[1], env)
                 if ka != "V" or kb != "V":
-                    fail(e, "max of non-values")
-                return "(py_max %s %s)" % (a, b), "V"
+                    fail(e, "max/min of non-values")
+                return "(py_%s %s %s)" % (f.id, a, b), "V"
             if isinstance(f, ast.Name) and f.id == "substitute_all" and len(e.args) == 2:
                 a, ka = self.expr(e.args[0], env)
                 b, kb = self.expr(e.args[1], env)
@@ -298,6 +298,30 @@ class FunTr:
             if len(s.targets) != 1:
                 fail(s, "multiple targets")
             t = s.targets[0]
+            if isinstance(t, ast.Tuple):
+                # a, b = e1, e2   (all right-hand sides are evaluated first)
+                v = s.value
+                if not (isinstance(v, ast.Tuple) and len(v.elts) == len(t.elts) and all(isinstance(x, ast.Name) for x in t.elts)):
+                    fail(s, "tuple assignment")
+                names = [x.id for x in t.elts]
+                if len(set(names)) != len(names):
+                    fail(s, "tuple assignment repeats a name")
+                vals = []
+                for x in v.elts:
+                    if self.is_tcall(x):
+                        fail(s, "call inside a tuple assignment")
+                    tx, kx = self.expr(x, env)
+                    if kx != "V":
+                        fail(s, "tuple assignment of a non-value")
+                    vals.append(tx)
+                env2 = dict(env)
+                for n in names:
+                    if n in PARAM_KIND and PARAM_KIND[n] != "V":
+                        fail(s, "assignment to a non-value name")
+                    if n in env and env[n] != "V":
+                        fail(s, "name changes kind")
+                    env2[n] = "V"
+                return "let '(%s) := (%s) in\n%s" % (", ".join(pn(n) for n in names), ", ".join(vals), kk(env2))
             if isinstance(t, ast.Name):
                 if isinstance(s.value, ast.Dict) and not s.value.keys:
                     if t.id not in self.state or PARAM_KIND.get(t.id) != "D" or t.id in env:
@@ -474,8 +498,11 @@ class FunTr:
             k = None
         body = self.block(self.node.body, env, k)
         params = " ".join("(%s : %s)" % (pn(p), KIND_TYPE[PARAM_KIND[p]]) for p in self.params)
-        return ("Fixpoint %s (fuel : nat) %s {struct fuel} : res (%s) (%s) :=\nmatch fuel with\n| O => OutOfFuel\n| S fuel =>\n%s\nend."
-                % (self.coqname, params, self.st_type(), self.rty, body))
+        recursive = any(isinstance(n, ast.Call) and isinstance(n.func, ast.Name) and n.func.id == self.pyname
+                        for n in ast.walk(self.node))
+        head = ("Fixpoint %s (fuel : nat) %s {struct fuel}" if recursive else "Definition %s (fuel : nat) %s") % (self.coqname, params)
+        return ("%s : res (%s) (%s) :=\nmatch fuel with\n| O => OutOfFuel\n| S fuel =>\n%s\nend."
+                % (head, self.st_type(), self.rty, body))
 
 
 def indent(code):
